@@ -829,7 +829,60 @@ def check_ir_witnesses(ctx, F):
             check(f"{kind.lower()} Wit : {base.lower()} with enumerators {[o for _, _, o in enumerators]}", got,
                   ("Wit", kind, base, [(nm, str(v), o) for nm, v, o in enumerators], ("w.wowm", 3, 8)), fn)
 
-    for sec in (versions, sizes, file_info, container_type, enumerator, whole_definer, if_statement, definition, types, arrays, test_values, test_case, members):
+    def update_mask():
+        # --- update-mask field tables: every attribute of a field, per data type ------------------------------------------------
+        fn = F.fn(IR + "update_mask::IrUpdateMaskMember::new_array")
+        if fn is None:
+            ctx.violate("ir.witness", "anchor|new_array", "ir_printer::update_mask::IrUpdateMaskMember::new_array not found (anchor disappeared)")
+            return
+        UM = "crate::rust_printer::update_mask::"
+        OT = UM + "UpdateMaskObjectType::"
+        DT = UM + "UpdateMaskDataType::"
+        sh = lambda nm: ("struct", UM + "ShortType", {"name": nm, "ty": ("short",)})
+        by = lambda nm: ("struct", UM + "ByteType", {"name": nm, "ty": ("byte",)})
+        table = [
+            ("Object", "GUID", 0, 2, ("variant", DT + "Guid"), ("Guid", None)),
+            ("Unit", "HEALTH", 22, 1, ("variant", DT + "Int"), ("Int", None)),
+            ("Unit", "BOUNDINGRADIUS", 129, 1, ("variant", DT + "Float"), ("Float", None)),
+            ("Item", "DURATION", 16, 1, ("variant", DT + "TwoShort", [sh("lo"), sh("hi")]), ("TwoShort", ("lo", "hi"))),
+            ("Player", "BYTES", 191, 1, ("variant", DT + "Bytes", [by("b0"), by("b1"), by("b2"), by("b3")]), ("Bytes", ("b0", "b1", "b2", "b3"))),
+            # stride 12 although the element struct below has 11 members (as the 2.4.3 visible item does)
+            ("Player", "VISIBLE_ITEM", 346, 228, ("struct", DT + "ArrayOfStruct", {"name": "VisibleItem", "variable_name": "visible_item", "import_location": "x", "size": 12}),
+             ("ArrayOfStruct", ("visible_item", 12, "um-struct:VisibleItem"))),
+            ("Player", "FIELD_INV", 486, 46, ("struct", DT + "GuidArrayUsingEnum", {"name": "ItemSlot", "variable_name": "item_slot", "import_location": "x"}),
+             ("GuidArrayUsingEnum", ("item_slot", "definer:ItemSlot"))),
+        ]
+        fields_in = [("struct", UM + "UpdateMaskMember", {"object_ty": ("variant", OT + ot), "name": nm, "offset": off, "size": sz, "ty": ty}) for ot, nm, off, sz, ty, _ in table]
+        elem = ("struct", "crate::ir_printer::container::IrUpdateMaskStruct", {"name": "um-struct:VisibleItem", "sizes": None, "members": [[("m", i)] for i in range(11)], "tags": None, "file_info": None})
+        ov = {"::get_world_struct": lambda a: ("container", a[1]), "::get_world_enum": lambda a: ("enum", a[1]),
+              "container_to_update_mask_ir": lambda a: elem if a[0] == ("container", "VisibleItem") else ("wrong struct", a[0]),
+              "definer_to_ir": lambda a: "definer:" + a[0][1] if isinstance(a[0], tuple) and a[0][0] == "enum" else ("wrong enum", a[0])}
+        out = run_(fn["path"], [fields_in, ("objects",), ("variant", "crate::parser::types::version::MajorWorldVersion::BurningCrusade")], ov)
+        if not isinstance(out, list) or len(out) != len(table):
+            check("update-mask field table of 7 fields (count)", len(out) if isinstance(out, list) else out, len(table), fn)
+            return
+        for (ot, nm, off, sz, ty, want_dt), o_ in zip(table, out):
+            f = fields(o_)
+            got = None
+            if f:
+                dt = f["data_type"]
+                tag = _strip(dt)
+                content = None
+                if isinstance(dt, tuple) and len(dt) > 2 and isinstance(dt[2], dict):
+                    c = dt[2]
+                    if tag == "TwoShort":
+                        content = (fields(c["first"])["name"], fields(c["second"])["name"])
+                    elif tag == "Bytes":
+                        content = tuple(fields(c[k])["name"] for k in ("first", "second", "third", "fourth"))
+                    elif tag == "ArrayOfStruct":
+                        ums = fields(c["update_mask_struct"])
+                        content = (c["variable_name"], c["size"], ums["name"] if ums else c["update_mask_struct"])
+                    elif tag == "GuidArrayUsingEnum":
+                        content = (c["variable_name"], c["definer"])
+                got = (_strip(f["object_type"]), f["name"], f["offset"], f["size"], (tag, content))
+            check(f"update-mask field {ot}.{nm} at {off} size {sz}", got, (ot, nm, off, sz, want_dt), fn)
+
+    for sec in (versions, sizes, file_info, container_type, enumerator, whole_definer, update_mask, if_statement, definition, types, arrays, test_values, test_case, members):
         section(sec)
     ctx.rule("ir.witness", n, floor=55, note="IR conversion functions interpreted on distinguishing instances (version components incl. literal zeros, min/max sizes, line numbers, container kinds with opcodes, enumerator value and spelling, values of if / else-if / else arms, every attribute of a member definition, enum / flag upcasts and integer widths, array element / size kinds with count or size-field name and compression, test-vector value kinds, test case subject / member order / bytes / lines, member order of optional tails)")
 
